@@ -578,6 +578,13 @@ func (x *Unit) runLoop(pre *State, lb loopBody, fl *flow, label string) *State {
 			savedIter := x.iterState
 			x.iterState = iterSnap
 			sctx := loopCtx(bs)
+			// a step clause speaks about a completed iteration: locals declared in the body are visible
+			switch ln := lb.node.(type) {
+			case *ast.ForStmt:
+				sctx.pos = ln.Body.Rbrace
+			case *ast.RangeStmt:
+				sctx.pos = ln.Body.Rbrace
+			}
 			g := x.specEval(bs, sc.Expr, sctx)
 			x.iterState = savedIter
 			x.oblige(bs, fmt.Sprintf("loop%d.step", k), clauseLabel(sc, i), g.T, lb.node)
